@@ -355,6 +355,19 @@ fn file_names(platform: u8, exp: u8, ctx: &Ctx) -> PResult {
     let mut want_files: BTreeSet<String> = BTreeSet::new();
     let block = vec![0x42u8; 128];
     let hdr = vec![0x24u8; 1024];
+    // a patch may announce its target more than once: what was written under an earlier announcement keeps that
+    // platform's tag, everything after the next one carries the new tag
+    {
+        let other = (platform as usize + 1 + exp as usize % 4) % 5;
+        let mut lead = zp::file_header();
+        lead.extend_from_slice(&zp::target_info(other as u16, -1, false, 0));
+        lead.extend_from_slice(&zp::add_data(0x13, ((exp as u16) << 8) | 9, 7, 0, &block, 0));
+        lead.extend_from_slice(&zp::header_update(true, b'I', 0x13, ((exp as u16) << 8) | 9, 0, &hdr));
+        lead.extend_from_slice(&patch[12..]);
+        patch = lead;
+        want_files.insert(format!("13{:02}09.{}.dat7", exp, PLATFORMS[other]));
+        want_files.insert(format!("13{:02}09.{}.index", exp, PLATFORMS[other]));
+    }
     for (_, cat) in CATEGORIES {
         for chunk in 0..10u8 {
             let sub = ((exp as u16) << 8) | chunk as u16;
